@@ -19,7 +19,7 @@ RULE = (
     "non-trivial = >=2 operations or a reduction; distinct = digest(source shape, op descriptor classes)"
 )
 ASSUMPTIONS = ["payload convention (func, args, kwargs) with input names substituted; i-th yield of a generator is output str(i)", "NumPy is the oracle"]
-REQUIRED_COUNTERS = ["programs_compared", "batch_variants_compared", "reductions", "keep_dim_cases", "batched_cases", "float_programs"]
+REQUIRED_COUNTERS = ["long_dimension_programs", "programs_compared", "batch_variants_compared", "reductions", "keep_dim_cases", "batched_cases", "float_programs"]
 
 
 def op_class(op):
@@ -69,6 +69,15 @@ def one_program(col: Collector, rng, index: int):
         n_ = len(src["coords"][dim])
         ops = [{"op": "reduce", "name": rng.choice(["sum", "sum", "prod", "mean", "max", "min"]), "dim": dim, "batch": rng.choice([0, 0, 2, n_ - 1, n_]), "keep": rng.random() < 0.3}]
         col.count("narrow_dtype_programs")
+    elif rng.random() < 0.12:
+        # a long dimension under one reduction: with n >= 6 a batched reduction is batched again (6 -> 3 -> 2 -> 1), and levels
+        # after the first may be uneven although the first was even -- any batch size 2..n-1, divisors of n twice as likely
+        n_ = rng.randint(6, 24)
+        src = {"dims": [fs.DIM_NAMES[0]], "coords": {fs.DIM_NAMES[0]: list(range(n_))}, "inner": tuple(rng.randint(2, 3) for _ in range(rng.choice([0, 1, 2]))),
+               "seed": rng.randrange(10**6), "floats": floats}
+        cand = list(range(2, n_)) + [b_ for b_ in range(2, n_) if n_ % b_ == 0]
+        ops = [{"op": "reduce", "name": rng.choice(list(fs.REDUCTIONS) + ["mean", "std"]), "dim": fs.DIM_NAMES[0], "batch": rng.choice(cand), "keep": rng.random() < 0.3}]
+        col.count("long_dimension_programs")
     if not ops:
         col.case(shape=("empty",), nontrivial=False)
         return
